@@ -373,6 +373,18 @@ class TransitionDefinition:
         self.event: str = event
         self.source: "StateNode" = source
         self.target_str: Optional[str] = config.get("target")
+        # 🛡️ A target names a state. A truthy non-string used to be accepted
+        #    here and then failed with a raw TypeError from inside `send()`,
+        #    and a falsy one silently became a targetless transition.
+        if self.target_str is not None and not isinstance(
+            self.target_str, str
+        ):
+            raise InvalidConfigError(
+                f"Transition for event '{event}' in state '{source.id}' has "
+                f"an invalid 'target' of type "
+                f"'{type(self.target_str).__name__}'. Expected the name of "
+                f"a state as a string."
+            )
         self.actions: List[ActionDefinition] = actions or []
 
         # 🛡️ Guard resolution.
@@ -658,6 +670,16 @@ class StateNode(Generic[TContext, TEvent]):
             self.history = history_kind
         #: Default target used when a history state has nothing recorded yet.
         self.target_str: Optional[str] = config.get("target")
+        if (
+            self.type == "history"
+            and self.target_str is not None
+            and not isinstance(self.target_str, str)
+        ):
+            raise InvalidConfigError(
+                f"History state '{self.id}' has an invalid default 'target' "
+                f"of type '{type(self.target_str).__name__}'. Expected the "
+                f"name of a state as a string."
+            )
 
         self.entry = self._parse_actions(config.get("entry"))
         self.exit = self._parse_actions(config.get("exit"))
